@@ -164,6 +164,11 @@ func (h *Header) Unmarshal(b []byte) error {
 
 	}
 
+	if h.TotalLen < HeaderLen {
+		// a total length that does not even cover the fixed header
+		return errHeaderTooShort
+	}
+
 	h.Payload = b[20:h.TotalLen]
 
 	return nil
